@@ -312,9 +312,21 @@ Definition add_local_challenge (c : conn) (d : Z) : conn :=
   set_lchal c (zdrop (Zlen l - MAX_LOCAL_CHALLENGES) l).
 
 (* ---------- NEW_CONNECTION_ID ---------- *)
+(* The cap on pending retirements.  WHERE the code evaluates it is probed from the source on every run
+   (tools/gen/c07_consts.py _ncid_cap_shape, fails closed): NCID_RETIRE_CAP_ONLY_WHEN_RAISED = false is the shape
+   "a statement of the handler's body, after everything that can grow the list, on every path" -- the late-arrival
+   path (a never-seen sequence number below Retire Prior To, retired at once) included.  In a tree that evaluates
+   it only when the frame moved Retire Prior To forward (flag true) the model skips it exactly there, and
+   buffer_bounded (proofs/ConnLimitsP.v handle_new_cid_inv) no longer checks.  [raised]: the frame's Retire Prior To
+   field is larger than the one known before the frame. *)
+Definition retire_cap : Z := Z.min (LOCAL_ACTIVE_CID_LIMIT * 4) MAX_PENDING_RETIRES.
+Definition over_retire_cap (raised : bool) (pend : list Z) : bool :=
+  (negb NCID_RETIRE_CAP_ONLY_WHEN_RAISED || raised) && (Zlen pend >? retire_cap).
+
 Definition handle_new_cid (c : conn) (seq rpt : Z) : outcome * conn :=
   let ft := FT_NEW_CONNECTION_ID in
   if rpt >? seq then (OErr E_PROTOCOL_VIOLATION ft, c) else
+  let raised := rpt >? c_cid_rpt c in
   let rpt' := Z.max rpt (c_cid_rpt c) in
   let retire0 := filter (fun q => q <? rpt') (c_cid_avail c) in
   let change := c_cid_active c <? rpt' in
@@ -333,7 +345,7 @@ Definition handle_new_cid (c : conn) (seq rpt : Z) : outcome * conn :=
             else (OExn, c)                  (* _peer_cid_available.pop(0) on an empty list: IndexError *)
   | Some (active', avail3) =>
       if 1 + Zlen avail3 >? LOCAL_ACTIVE_CID_LIMIT then (OErr E_CONNECTION_ID_LIMIT_ERROR ft, c) else
-      if Zlen pend >? Z.min (LOCAL_ACTIVE_CID_LIMIT * 4) MAX_PENDING_RETIRES then (OErr E_CONNECTION_ID_LIMIT_ERROR ft, c) else
+      if over_retire_cap raised pend then (OErr E_CONNECTION_ID_LIMIT_ERROR ft, c) else
       (OOk RNone, set_cids c active' avail3 seen2 rpt' pend)
   end.
 
